@@ -4,6 +4,7 @@ mod drivers;
 mod notation;
 mod rsproj;
 mod rseval;
+mod rsvalue;
 mod run;
 mod tsproj;
 mod util;
@@ -23,6 +24,7 @@ fn main() {
         "c01" => drivers::c01::drive(&rest),
         "c02" => drivers::c02::drive(&rest),
         "c03" => drivers::c03::drive(&rest),
+        "c03der" => drivers::c03::der_gen(&rest),
         "c04" => drivers::c04::drive(&rest),
         "c05" => drivers::c05::drive(&rest),
         "c06" => drivers::c06::drive(&rest),
